@@ -5,7 +5,7 @@ import native
 def run_native(rp):
     slots = ','.join('-' if s is None else s for s in rp['slots'])
     op = 'resize:%d' % rp['arg'] if rp['op'] == 'resize' else '%s:%s' % (rp['op'], rp['arg'][5:] if str(rp['arg']).startswith('actor') else 'stranger')
-    out, _, rc, err = native.run('factory_pool', pool_size=rp['pool_size'], slots=slots, busy=rp['busy'], op=op, timeout=30)
+    out, _, rc, err = native.run('factory_pool', pool_size=rp['pool_size'], slots=slots, busy=rp['busy'], queued=rp.get('queued', []), op=op, timeout=30)
     if rc != 0:
         raise RuntimeError('native factory_pool failed: ' + err[-300:])
     d = dict(x.split(':', 1) for x in out['out'].split(';'))
@@ -42,6 +42,8 @@ def violations(rp, obs):
                 bad.append('dead_worker_replaced_in_its_slot_or_retired_if_draining')
             if w not in pool and rp['slots'][w] != 'drain':
                 bad.append('dead_worker_replaced_in_its_slot_or_retired_if_draining: a live worker vanished')
+            if w in rp.get('queued', []) and not (w in pool and pool[w]['busy'] and not pool[w]['same_actor']):
+                bad.append('job_queued_on_the_dead_worker_goes_to_its_replacement: the slot is %s' % (pool.get(w, 'gone'),))
         elif any(not v['same_actor'] for v in pool.values()):
             bad.append('death_of_an_actor_outside_the_pool_changes_nothing')
     return bad
